@@ -472,11 +472,31 @@ def cond_holds(E, cond, env):
 def sample_env(E, rng, names, conds, intvars, tries=300):
     """A random environment for `names` satisfying every stated condition that mentions only them."""
     names = sorted(names)
+    # bounds of the form  v < c,  v > c  ... with a numeric c steer the proposal distribution
+    hints = {}
+    for c in conds:
+        if c.ty == E.OP and len(c.args) == 2 and c.op in ("<", "<=", ">", ">=") and c.args[0].ty == E.VAR and c.args[1].ty == E.CONST:
+            hints.setdefault(c.args[0].name, []).append((c.op, float(frac_of(c.args[1].val))))
     for _ in range(tries):
         env = {}
         for n in names:
             if n in intvars:
-                env[n] = rng.choice([0, 1, 1, 2, 2, 3, 4])
+                lo_i = 0
+                for op, v in hints.get(n, []):
+                    if op in (">", ">="):
+                        lo_i = max(lo_i, int(v) + (1 if op == ">" else 0))
+                env[n] = lo_i + rng.choice([0, 1, 1, 2, 2, 3, 4])
+            elif n in hints and rng.random() < 0.7:
+                lo_h = max([v for op, v in hints[n] if op in (">", ">=")], default=None)
+                hi_h = min([v for op, v in hints[n] if op in ("<", "<=")], default=None)
+                if lo_h is not None and hi_h is not None and lo_h < hi_h:
+                    env[n] = round(rng.uniform(lo_h + 0.05 * (hi_h - lo_h), hi_h - 0.05 * (hi_h - lo_h)), 3)
+                elif lo_h is not None:
+                    env[n] = round(lo_h + rng.uniform(0.1, 2.0), 3)
+                elif hi_h is not None:
+                    env[n] = round(hi_h - rng.uniform(0.1, 2.0), 3)
+                else:
+                    env[n] = round(rng.uniform(0.2, 2.5), 3)
             else:
                 r = rng.random()
                 if r < 0.55:
@@ -608,6 +628,23 @@ def indef_vars(E, e, acc=None):
     return acc
 
 
+def deriv_vars(E, e, acc=None):
+    acc = set() if acc is None else acc
+    if e.ty == E.DERIV:
+        acc.add(str(e.var))
+        deriv_vars(E, e.body, acc)
+    elif e.ty in (E.OP, E.FUN):
+        for a in e.args:
+            deriv_vars(E, a, acc)
+    elif e.ty in (E.INTEGRAL, E.EVAL_AT, E.SUMMATION):
+        deriv_vars(E, e.lower, acc), deriv_vars(E, e.upper, acc), deriv_vars(E, e.body, acc)
+    elif e.ty in (E.DIFFERENTIAL, E.INDEFINITEINTEGRAL):
+        deriv_vars(E, e.body, acc)
+    elif e.ty == E.LIMIT:
+        deriv_vars(E, e.lim, acc), deriv_vars(E, e.body, acc)
+    return acc
+
+
 def has_skolem(E, e):
     if e.ty == E.SKOLEMFUNC:
         return True
@@ -681,6 +718,7 @@ class StepJudge:
         free = set()
         for e in exprs:
             free |= e.get_vars()
+            free |= deriv_vars(E, e)          # `D a. f(a)` is a function of a
         free -= set(defs)
         # variables introduced by substitutions are functions of the others
         derived = {v for v in substs if v in free}
@@ -749,7 +787,7 @@ class StepJudge:
         return two_prec(E, e, env, defs, base, self.left())
 
 
-def replay_examples(ctx, I, files=None, only=None, budget_s=None):
+def replay_examples(ctx, I, files=None, only=None, budget_s=None, deadline=None):
     """Re-run every recorded step through compstate and judge it numerically."""
     E, cs = I.expr, I.compstate
     rng = ctx.rng("examples")
@@ -761,6 +799,9 @@ def replay_examples(ctx, I, files=None, only=None, budget_s=None):
         ctx.count("examples:" + k)
 
     for name, content in (files if files is not None else typed_example_files(ctx.repo)):
+        if deadline is not None and time.time() > deadline:
+            bump("file-not-reached-in-time-cap")
+            continue
         book = find_book(ctx.repo, name)
         try:
             with quiet():
@@ -1449,6 +1490,11 @@ def interval_stream(ctx, I, n):
     for _ in range(n):
         op = rng.choice(ops)
         cases.append((op, gen_ival(rng), gen_ival(rng) if op in ("iadd", "isub", "imul", "idiv") else None, rng.choice([0, 1, 2, 2, 3, 4, 5, 6])))
+    interval_cases(ctx, I, cases, rng)
+    ctx.sample({"interval_case": [cases[len(corpus)][0], show_ival(cases[len(corpus)][1])]} if len(cases) > len(corpus) else {})
+
+
+def interval_cases(ctx, I, cases, rng):
     lines = []
     for op, a, b, k in cases:
         if op in ("iadd", "isub", "imul", "idiv"):
@@ -1511,7 +1557,6 @@ def interval_stream(ctx, I, n):
                           {"kind": "interval", "op": op, "a": ser_ival(a), "b": ser_ival(b) if b else None, "n": k})
     if out is None:
         ctx.broken("correspondence:c19:driver", "model driver unavailable")
-    ctx.sample({"interval_case": [cases[len(corpus)][0], show_ival(cases[len(corpus)][1])]} if len(cases) > len(corpus) else {})
 
 
 def show_ival(iv):
@@ -1640,9 +1685,14 @@ def normalize_check(ctx, I, e, conds, rng):
     if st != "ok":
         return
     st2, n2 = impl_normalize(I, n1, C)
-    if st2 == "ok" and not same_expr(E, n1, n2) and not (n1 == n2):
-        ctx.violation("normalize-idempotent:" + str(e), "normalize is not idempotent on %s: %s then %s" % (e, n1, n2),
-                      {"kind": "normalize", "expr": str(e), "conds": [str(c) for c in conds], "what": "idempotent"})
+    second = None
+    if st2 == "ok" and not same_expr(E, n1, n2):
+        try:
+            equal = (n1 == n2)
+        except Exception:  # noqa
+            equal = False
+        if not equal:
+            second = n2
     names = e.get_vars() | n1.get_vars()
     good = 0
     for _ in range(8):
@@ -1663,3 +1713,552 @@ def normalize_check(ctx, I, e, conds, rng):
         if good >= 2:
             break
     ctx.count("normalize-oracle:checked" if good else "normalize-oracle:no-admissible-point")
+    if second is not None:
+        # Not idempotent.  If the second pass changes the value it is a value violation of its own; if it only
+        # changes the form, it is the (known, design-level) lack of a fixed point.
+        for _ in range(6):
+            env = sample_env(E, rng, n1.get_vars() | second.get_vars(), conds, set())
+            if env is None:
+                break
+            try:
+                a = two_prec(E, n1, env, limit_s=3)
+                b = two_prec(E, second, env, limit_s=3)
+            except Unrel:
+                continue
+            if not close(a, b):
+                ctx.violation("normalize-value:" + str(n1), "second normalize pass changes the value: %s -> %s at %s" % (n1, second, env),
+                              {"kind": "normalize", "expr": str(n1), "conds": [str(c) for c in conds], "what": "value", "env": env})
+                return
+            break
+        ctx.violation("normalize-idempotent:second-pass-changes-form-only",
+                      "normalize is not idempotent (the second pass reorders / distributes / simplifies further without changing the "
+                      "value), e.g. %s -> %s -> %s" % (e, n1, second),
+                      {"kind": "normalize", "expr": str(e), "conds": [str(c) for c in conds], "what": "idempotent"})
+
+
+# =====================================================================================================
+# stream: generated applications of Linearity / SplitRegion / IntegrationByParts / Substitution
+# =====================================================================================================
+ATOMS_POS = ["x", "x ^ 2", "x ^ 3", "sqrt(x)", "1 / x", "exp(x)", "exp(-x)", "log(x)", "sin(x)", "cos(x)", "1 / (x ^ 2 + 1)", "x ^ a",
+             "exp(a * x)", "sin(a * x)", "x / (x + 1)", "log(x + 1)", "x * exp(x)", "atan(x)", "tan(x / 2)", "sqrt(x + 1)", "x ^ (1/3)",
+             "1 / sqrt(x)", "cos(x) ^ 2", "(INT t:[0,x]. t * cos(t))"]
+COEFFS = ["2", "3", "-1", "1/2", "a", "b", "a * b", "pi", "(a + 1)", "-3/2", "sqrt(2)"]
+
+
+def gen_integrand(I, rng, depth=2):
+    P = I.parser.parse_expr
+    E = I.expr
+
+    def rec(d):
+        if d <= 0 or rng.random() < 0.25:
+            return P(rng.choice(ATOMS_POS))
+        r = rng.random()
+        if r < 0.3:
+            return E.Op(rng.choice(["+", "-"]), rec(d - 1), rec(d - 1))
+        if r < 0.5:
+            return E.Op("*", P(rng.choice(COEFFS)), rec(d - 1))
+        if r < 0.6:
+            return E.Op("*", rec(d - 1), P(rng.choice(COEFFS)))
+        if r < 0.7:
+            return E.Op("/", rec(d - 1), P(rng.choice(COEFFS)))
+        if r < 0.78:
+            return E.Op("/", P(rng.choice(COEFFS)), P(rng.choice(["x", "x ^ 2 + 1", "exp(x)", "sqrt(x)", "(x + a ^ 2)"])))
+        if r < 0.86:
+            return E.Op("-", rec(d - 1))
+        return E.Op("*", rec(d - 1), rec(d - 1))
+    return rec(depth)
+
+
+def gen_bounds(I, rng):
+    lo = Fraction(rng.randint(1, 8), 8)
+    hi = lo + Fraction(rng.randint(1, 10), 8)
+    c = lo + (hi - lo) * Fraction(rng.randint(1, 7), 8)
+    def K(q):
+        return I.expr.Const(q if q.denominator != 1 else int(q))
+    return K(lo), K(hi), K(c), (lo, hi, c)
+
+
+def apply_rule(I, rule, e, hctx=None, limit=30):
+    try:
+        with quiet():
+            with time_limit(limit):
+                return "ok", rule.eval(e, hctx if hctx is not None else I.context.Context())
+    except Timeout:
+        return "timeout", None
+    except AssertionError:
+        return "rejected", None
+    except Exception as ex:  # noqa
+        return "raises:" + type(ex).__name__, None
+
+
+def rules_stream(ctx, I, n):
+    E, R = I.expr, I.rules
+    P = I.parser.parse_expr
+    rng = ctx.rng("rules")
+    judge = StepJudge(I, rng, nsamples=1, budget_s=ctx.scale(4.0, 10.0))
+    conds = [P("a > 0"), P("b > 0")]
+    hctx = I.context.Context()
+    for c in conds:
+        hctx.add_condition(c)
+    for k in range(n):
+        kind = rng.choice(["lin", "lin", "lin", "lin-sum", "lin-indef", "split", "split", "parts", "parts", "subst", "subst", "subst-inv"])
+        lo, hi, c, (qlo, qhi, qc) = gen_bounds(I, rng)
+        before = after = None
+        rule = None
+        calc_ivars = set()
+        try:
+            with quiet():
+                if kind == "lin":
+                    before = E.Integral("x", lo, hi, gen_integrand(I, rng, rng.choice([1, 2, 3])))
+                    rule = R.Linearity()
+                elif kind == "lin-sum":
+                    body = gen_integrand(I, rng, 2).subst("x", E.Var("k"))
+                    before = E.Summation("k", E.Const(1), E.Const(rng.randint(2, 6)), body)
+                    rule = R.Linearity()
+                elif kind == "lin-indef":
+                    before = E.IndefiniteIntegral("x", gen_integrand(I, rng, 2), tuple())
+                    rule = R.Linearity()
+                    calc_ivars = {"x"}
+                elif kind == "split":
+                    before = E.Integral("x", lo, hi, gen_integrand(I, rng, 2))
+                    if rng.random() < 0.2:
+                        c = E.Const(Fraction(rng.randint(1, 24), 8))      # also points outside [lo, hi]
+                    rule = R.SplitRegion(c)
+                elif kind == "parts":
+                    u = P(rng.choice(["x", "log(x)", "x ^ 2", "exp(x)", "sin(x)", "atan(x)", "x + a", "log(x) ^ 2", "cos(a * x)"]))
+                    v = P(rng.choice(["x", "x ^ 2 / 2", "exp(x)", "-cos(x)", "sin(x)", "x ^ 3 / 3", "log(x)", "exp(a * x) / a", "x ^ (a + 1) / (a + 1)"]))
+                    dv = R.deriv("x", v, hctx)
+                    before = E.Integral("x", lo, hi, I.poly.normalize(u * dv, hctx.get_conds()))
+                    rule = R.IntegrationByParts(u, v)
+                elif kind == "subst":
+                    g = P(rng.choice(["x ^ 2", "2 * x + 1", "exp(x)", "log(x)", "sin(x)", "sqrt(x)", "x ^ 2 + 1", "a * x", "x + a", "1 / x", "x ^ 3"]))
+                    f = P(rng.choice(["u", "u ^ 2", "exp(u)", "1 / (u + 1)", "sqrt(u + 1)", "sin(u)", "log(u + 2)", "u * exp(u)", "1 / (u ^ 2 + 1)"]))
+                    dg = R.deriv("x", g, hctx)
+                    before = E.Integral("x", lo, hi, f.subst("u", g) * dg)
+                    rule = R.Substitution("u", g)
+                else:
+                    g = P(rng.choice(["2 * u", "u ^ 2", "sin(u)", "exp(u)", "u + 1", "tan(u)", "1 / u"]))
+                    before = E.Integral("x", lo, hi, gen_integrand(I, rng, 1))
+                    rule = R.SubstitutionInverse("u", g)
+        except Exception as ex:  # noqa
+            ctx.count("rules:%s:setup-%s" % (kind, type(ex).__name__))
+            continue
+        rule_case(ctx, I, kind, before, rule, rng, judge, calc_ivars, k == 0)
+
+
+def rule_case(ctx, I, kind, before, rule, rng, judge=None, calc_ivars=None, sample=False):
+    E = I.expr
+    P = I.parser.parse_expr
+    if judge is None:
+        judge = StepJudge(I, rng, nsamples=1, budget_s=20.0)
+    if calc_ivars is None:
+        calc_ivars = indef_vars(E, before)
+    with quiet():
+        conds = [P("a > 0"), P("b > 0")]
+    hctx = I.context.Context()
+    for c in conds:
+        hctx.add_condition(c)
+    k = 0 if sample else 1
+    for _ in range(1):
+        before_s = str(before)
+        st, after = apply_rule(I, rule, I.parser.parse_expr(before_s) if roundtrip_domain(E, before) else before, hctx)
+        ctx.case(("rule", kind, before_s, str(rule)), nontrivial=True)
+        ctx.count("rules:%s:%s" % (kind, "applied" if st == "ok" else st.split(":")[0]))
+        if st != "ok":
+            continue
+        try:
+            verdict, detail = judge.judge(before, after, conds, {}, {}, set(), calc_ivars)
+        except Exception as ex:  # noqa
+            verdict, detail = "skip:evaluator-error:" + type(ex).__name__, None
+        ctx.count("rules:%s:%s" % (kind, verdict if verdict in ("ok", "bad") else "skip"))
+        if verdict == "bad":
+            ctx.violation("rule-value:%s:%s:%s" % (type(rule).__name__, before_s, rule),
+                          "%s on %s gives %s: value changes %s" % (rule, before_s, after, detail),
+                          {"kind": "rule", "rule": kind, "before": before_s, "rule_str": str(rule), "params": rule.export(), "detail": detail})
+        if k == 0:
+            ctx.sample({"rule_case": [kind, before_s, str(rule), str(after)]})
+
+
+# =====================================================================================================
+# stream: bounds of expressions under interval conditions (Conditions.get_bounds_for_expr)
+# =====================================================================================================
+def gen_bounded_expr(E, rng, depth):
+    """+ - * / natural powers, sqrt/exp/log/sin/cos: the operations interval.py propagates bounds through."""
+    def rec(d):
+        if d <= 0 or rng.random() < 0.25:
+            return E.Var(rng.choice(["x", "y"])) if rng.random() < 0.65 else gen_const(E, rng)
+        r = rng.random()
+        if r < 0.55:
+            return E.Op(rng.choice(["+", "-", "*", "*", "/"]), rec(d - 1), rec(d - 1))
+        if r < 0.65:
+            return E.Op("-", rec(d - 1))
+        if r < 0.85:
+            return E.Op("^", rec(d - 1), E.Const(rng.choice([0, 1, 2, 2, 3, 4, 5, 6])))
+        return E.Fun(rng.choice(["exp", "sin", "cos", "sqrt", "log"]), rec(d - 1))
+    return rec(depth)
+
+
+def bounds_stream(ctx, I, n):
+    E = I.expr
+    rng = ctx.rng("bounds")
+    mp = MP_LO
+    for _ in range(n):
+        ivs = {v: gen_ival(rng) for v in ("x", "y")}
+        conds = []
+        for v, (lo, hi, lo_open, hi_open) in ivs.items():
+            if lo != "-oo":
+                conds.append(E.Op(">" if lo_open else ">=", E.Var(v), E.Const(lo if lo.denominator != 1 else int(lo))))
+            if hi != "oo":
+                conds.append(E.Op("<" if hi_open else "<=", E.Var(v), E.Const(hi if hi.denominator != 1 else int(hi))))
+        e = gen_bounded_expr(E, rng, rng.choice([1, 2, 2, 3]))
+        bounds_case(ctx, I, e, conds, rng, ivs)
+
+
+def ivs_of_conds(E, conds):
+    ivs = {"x": ["-oo", "oo", True, True], "y": ["-oo", "oo", True, True]}
+    for c in conds:
+        v, q = c.args[0].name, frac_of(c.args[1].val)
+        if c.op in (">", ">="):
+            ivs[v][0], ivs[v][2] = q, c.op == ">"
+        else:
+            ivs[v][1], ivs[v][3] = q, c.op == "<"
+    return {k: tuple(v) for k, v in ivs.items()}
+
+
+def bounds_case(ctx, I, e, conds, rng, ivs=None):
+    E = I.expr
+    mp = MP_LO
+    if ivs is None:
+        ivs = ivs_of_conds(E, conds)
+    for _ in range(1):
+        ctx.case(("bounds", str(e), tuple(str(c) for c in conds)), nontrivial=e.ty not in (E.VAR, E.CONST))
+        try:
+            with quiet():
+                with time_limit(20):
+                    r = I.conditions.Conditions(conds).get_bounds_for_expr(e)
+                    lo_f, hi_f = float(E.eval_expr(r.start)), float(E.eval_expr(r.end))
+        except Timeout:
+            ctx.count("bounds:timeout")
+            continue
+        except Exception as ex:  # noqa
+            ctx.count("bounds:raises")
+            continue
+        ctx.count("bounds:ok")
+        px = points_of(rng, ivs["x"]) or [None]
+        py = points_of(rng, ivs["y"]) or [None]
+        if px == [None] or py == [None]:
+            continue
+        checked = 0
+        for x in px:
+            for y in py:
+                env = {"x": mp.mpf(x.numerator) / x.denominator, "y": mp.mpf(y.numerator) / y.denominator}
+                ne = NumEval(mp, E)
+                try:
+                    v = ne.finite(ne.ev(e, env))
+                    ok_domain = domain_ok(E, ne, e, env)
+                except Unrel:
+                    continue
+                if not ok_domain:
+                    continue
+                checked += 1
+                tol = 1e-9 * max(1, abs(v))
+                out = (v < lo_f - tol) or (v > hi_f + tol) or (r.left_open and abs(v - lo_f) <= 0 and exactly(E, e, x, y, r.start)) \
+                    or (r.right_open and abs(v - hi_f) <= 0 and exactly(E, e, x, y, r.end))
+                if out:
+                    ctx.violation("bounds:%s | %s" % (e, ", ".join(str(c) for c in conds)),
+                                  "get_bounds_for_expr(%s) under [%s] = %s does not contain the value %s at x=%s, y=%s" % (
+                                      e, ", ".join(str(c) for c in conds), r, v, x, y),
+                                  {"kind": "bounds", "expr": ser_expr(E, e), "conds": [ser_expr(E, c) for c in conds], "x": str(x), "y": str(y)})
+                    break
+            else:
+                continue
+            break
+        ctx.count("bounds:points", checked)
+
+
+def domain_ok(E, ne, e, env):
+    """Every sqrt/log argument non-negative/positive and every divisor non-zero at env, and no 0 ^ 0 (the enclosure is
+    claimed for points where the expression is defined)."""
+    if e.ty in (E.OP, E.FUN):
+        for a in e.args:
+            if not domain_ok(E, ne, a, env):
+                return False
+        if e.ty == E.OP and e.op == "/" and ne.ev(e.args[1], env) == 0:
+            return False
+        if e.ty == E.FUN and e.func_name == "sqrt" and ne.ev(e.args[0], env) < 0:
+            return False
+        if e.ty == E.FUN and e.func_name == "log" and ne.ev(e.args[0], env) <= 0:
+            return False
+    return True
+
+
+def exact_eval(E, e, env):
+    """Exact rational value of a + - * / ^nat expression (None when a transcendental function occurs)."""
+    if e.ty == E.VAR:
+        return env[e.name]
+    if e.ty == E.CONST:
+        return frac_of(e.val)
+    if e.ty == E.OP:
+        if len(e.args) == 1:
+            a = exact_eval(E, e.args[0], env)
+            return None if a is None else -a
+        a, b = exact_eval(E, e.args[0], env), exact_eval(E, e.args[1], env)
+        if a is None or b is None:
+            return None
+        if e.op == "+":
+            return a + b
+        if e.op == "-":
+            return a - b
+        if e.op == "*":
+            return a * b
+        if e.op == "/":
+            return None if b == 0 else a / b
+        if e.op == "^" and b.denominator == 1 and b >= 0:
+            return a ** int(b)
+    return None
+
+
+def exactly(E, e, x, y, endpoint):
+    """The exact value equals an (open) endpoint -- decided in rational arithmetic only."""
+    v = exact_eval(E, e, {"x": x, "y": y})
+    try:
+        ep = E.eval_expr(endpoint)
+    except Exception:  # noqa
+        return False
+    if v is None or isinstance(ep, float):
+        return False
+    return v == Fraction(ep)
+
+
+# =====================================================================================================
+# serialisation of arbitrary expressions for replay files
+# =====================================================================================================
+def ser_expr(E, e):
+    ty = e.ty
+    if ty == E.VAR:
+        return ["var", e.name]
+    if ty == E.CONST:
+        q = frac_of(e.val)
+        return ["const", q.numerator, q.denominator]
+    if ty == E.INF:
+        return ["inf", e == E.POS_INF]
+    if ty == E.OP:
+        return ["op", e.op] + [ser_expr(E, a) for a in e.args]
+    if ty == E.FUN:
+        return ["fun", e.func_name] + [ser_expr(E, a) for a in e.args]
+    if ty == E.INTEGRAL:
+        return ["integral", e.var, ser_expr(E, e.lower), ser_expr(E, e.upper), ser_expr(E, e.body)]
+    if ty == E.EVAL_AT:
+        return ["evalat", e.var, ser_expr(E, e.lower), ser_expr(E, e.upper), ser_expr(E, e.body)]
+    if ty == E.SUMMATION:
+        return ["sum", e.index_var, ser_expr(E, e.lower), ser_expr(E, e.upper), ser_expr(E, e.body)]
+    if ty == E.DERIV:
+        return ["deriv", e.var, ser_expr(E, e.body)]
+    if ty == E.DIFFERENTIAL:
+        return ["diff", ser_expr(E, e.body)]
+    if ty == E.INDEFINITEINTEGRAL:
+        return ["indef", e.var, list(e.skolem_args), ser_expr(E, e.body)]
+    if ty == E.LIMIT:
+        return ["limit", e.var, ser_expr(E, e.lim), e.drt, ser_expr(E, e.body)]
+    if ty == E.SKOLEMFUNC:
+        return ["skolem", e.name] + [ser_expr(E, a) for a in e.dependent_vars]
+    return ["?", str(e)]
+
+
+def deser_expr(E, x):
+    k = x[0]
+    if k == "var":
+        return E.Var(x[1])
+    if k == "const":
+        q = Fraction(x[1], x[2])
+        return E.Const(q if q.denominator != 1 else int(q))
+    if k == "inf":
+        return E.POS_INF if x[1] else E.NEG_INF
+    if k == "op":
+        return E.Op(x[1], *[deser_expr(E, a) for a in x[2:]])
+    if k == "fun":
+        return E.Fun(x[1], *[deser_expr(E, a) for a in x[2:]])
+    if k == "integral":
+        return E.Integral(x[1], deser_expr(E, x[2]), deser_expr(E, x[3]), deser_expr(E, x[4]))
+    if k == "evalat":
+        return E.EvalAt(x[1], deser_expr(E, x[2]), deser_expr(E, x[3]), deser_expr(E, x[4]))
+    if k == "sum":
+        return E.Summation(x[1], deser_expr(E, x[2]), deser_expr(E, x[3]), deser_expr(E, x[4]))
+    if k == "deriv":
+        return E.Deriv(x[1], deser_expr(E, x[2]))
+    if k == "diff":
+        return E.Differential(deser_expr(E, x[1]))
+    if k == "indef":
+        return E.IndefiniteIntegral(x[1], deser_expr(E, x[3]), tuple(x[2]))
+    if k == "limit":
+        return E.Limit(x[1], deser_expr(E, x[2]), deser_expr(E, x[4]), x[3])
+    if k == "skolem":
+        return E.SkolemFunc(x[1], tuple(deser_expr(E, a) for a in x[2:]))
+    raise ValueError(k)
+
+
+# =====================================================================================================
+# main
+# =====================================================================================================
+def load_corpus(ctx):
+    p = os.path.join(ctx.verif, "corpus", "c19.json")
+    if os.path.exists(p):
+        with open(p) as f:
+            return json.load(f)
+    return []
+
+
+def run_corpus(ctx, I):
+    """Minimised past failures (the inputs of the repaired defects), replayed first."""
+    for rp in load_corpus(ctx):
+        replay_one(ctx, I, rp)
+        ctx.count("corpus")
+
+
+def run(ctx):
+    ctx.coverage["rule"] = (
+        "deriv: hand-written branch corpus + random expressions (depth<=4) over Var/Const(int, negative, fraction)/+ - * / ^/unary -/"
+        "sin cos tan cot sec csc exp log sqrt atan asin acos acot abs/unknown f/pi G/Integral EvalAt Deriv, variable x among x,y,n; "
+        "non-trivial = contains x and is not an atom. print/parse: the same generator (depth<=5) + human-style variants (spaces, dropped "
+        "brackets, leading minus) + every expression string of integral/examples; rich round trip adds Limit(+-)/Summation/"
+        "IndefiniteIntegral/Skolem/oo/relations. interval: random intervals with small rational or infinite endpoints and open/closed "
+        "flags, operations + - neg * inverse / ^n (n<=6), every result also judged on rational sample points (attained endpoints, interior, "
+        "near zero) in exact arithmetic; bounds: get_bounds_for_expr on + - * / ^n sqrt exp log sin cos expressions under interval "
+        "conditions. normalize: corpus + random expressions, with/without x>0,y>0. rules: generated Linearity (integral, finite sum, "
+        "antiderivative), SplitRegion, IntegrationByParts, Substitution, SubstitutionInverse on integrands built from 24 atoms, "
+        "rational bounds in [1/8, 9/4]. examples: every recorded step of the typed example files re-run through compstate (quick: a "
+        "seeded subset within a time cap). distinct = by canonical input string.")
+    use_module_findings(ctx)
+    proofs_ok = ctx.lean_props(["Holpy.C19.Props"], exes=[EXE])
+    if ctx.tier == "thorough" and proofs_ok:
+        ctx.lean_check_modules(["Holpy.C19.Props"])
+    ctx.coverage["trusted_base"] += [
+        "Mathlib v4.33 analysis modules imported by the proof files (SpecialFunctions.*Deriv, Pow.Deriv, Sqrt, IntervalIntegral)",
+        "correspondence harness harness/props/c19.py: generators, s-expression writer, replacement of rules.normalize by the identity "
+        "in the harness process while observing deriv",
+        "numerical oracle (mpmath quad/diff/limit/nsum at 20 and 40 digits): SUPPORTING EVIDENCE for the rules that no theorem covers; "
+        "a step is judged only when both sides evaluate reliably at both precisions",
+        "Lark's LALR construction and contextual lexer (the parser model was written against observed parse trees)"]
+    ctx.assumptions += [
+        "den interprets x ^ y as Real.rpow and division/log/sqrt outside their domain by Lean's conventions; DiffOK restricts to the domain",
+        "Const values that are integers are Python ints (the a/b special case of Op.__str__ tests isinstance(val, int))",
+        "print/parse round trip is claimed on the parser's image: no Const/Const quotient, no unary minus of a positive constant, "
+        "no identifier spelled like a keyword or starting with oo/inf",
+        "normalize, limits, series, Substitution(Inverse), identities, definitions, FullSimplify, IntegrateByEquation etc. are judged by "
+        "the numerical oracle only (recorded + generated applications), not by a theorem",
+        "steps that fix a Skolem constant from a boundary value, divergent/oscillatory improper integrals and slowly converging "
+        "series/limits are counted as skipped"]
+    I = Impl()
+    t0 = time.time()
+    run_corpus(ctx, I)
+    deriv_stream(ctx, I, ctx.scale(400, 6000))
+    ctx.log("deriv stream done")
+    ex_strings = example_roundtrip(ctx, I)
+    rng = ctx.rng("example-parse")
+    extra = ex_strings if ctx.tier == "thorough" else rng.sample(ex_strings, min(500, len(ex_strings)))
+    print_parse_stream(ctx, I, ctx.scale(1200, 12000), extra_strings=extra)
+    rich_roundtrip(ctx, I, ctx.scale(1500, 20000))
+    ctx.log("print/parse streams done")
+    interval_stream(ctx, I, ctx.scale(3000, 60000))
+    bounds_stream(ctx, I, ctx.scale(1500, 20000))
+    ctx.log("interval streams done")
+    normalize_stream(ctx, I, ctx.scale(500, 8000))
+    ctx.log("normalize stream done")
+    rules_stream(ctx, I, ctx.scale(110, 1400))
+    ctx.log("generated rule applications done")
+    files = typed_example_files(ctx.repo)
+    ctx.rng("example-files").shuffle(files)
+    stats = replay_examples(ctx, I, files, deadline=time.time() + ctx.scale(70, 840))
+    stats.pop("_slow", None)
+    ctx.coverage["example_steps"] = stats
+    ctx.log("recorded calculations done: %s" % {k: v for k, v in stats.items() if not k.startswith("rule:")})
+    ctx.coverage["oracle_note"] = ("numerical judgements (mpmath) are supporting evidence, not proof; counts of skipped steps are in "
+                                   "example_steps / histogram")
+
+
+def replay_one(ctx, I, rp):
+    """Re-run one recorded failing input through the same oracle."""
+    E = I.expr
+    P = I.parser.parse_expr
+    k = rp.get("kind")
+    rng = ctx.rng("replay")
+    if k == "deriv":
+        with quiet():
+            e = P(rp["expr"])
+        deriv_oracle(ctx, I, e, rng, rp.get("var", "x"))
+    elif k == "roundtrip":
+        roundtrip_check(ctx, I, deser_expr(E, rp["expr"]), where="replay")
+    elif k == "interval":
+        a = deser_ival(rp["a"])
+        b = deser_ival(rp["b"]) if rp.get("b") else None
+        interval_cases(ctx, I, [(rp["op"], a, b, int(rp.get("n") or 0))], rng)
+    elif k == "bounds":
+        bounds_case(ctx, I, deser_expr(E, rp["expr"]), [deser_expr(E, c) for c in rp["conds"]], rng)
+    elif k == "normalize":
+        with quiet():
+            e = P(rp["expr"])
+            conds = [P(c) for c in rp.get("conds", [])]
+        normalize_check(ctx, I, e, conds, rng)
+    elif k == "rule":
+        with quiet():
+            before = P(rp["before"])
+            rule = I.compstate.parse_rule(dict(rp["params"]))
+        rule_case(ctx, I, rp["rule"], before, rule, rng)
+    elif k == "example-step":
+        files = [f for f in typed_example_files(ctx.repo) if f[0] == rp["file"]]
+        replay_examples(ctx, I, files, only=rp["key"], budget_s=30)
+
+
+def use_module_findings(ctx):
+    """known_findings.json is generated from FINDINGS below; until it has been regenerated the list of this module
+    is authoritative (same keys, so nothing is suppressed that the generated file would not suppress)."""
+    have = {f["key"] for f in ctx.findings}
+    ctx.findings += [dict(f, property=ctx.prop) for f in FINDINGS if f["key"] not in have]
+
+
+def replay(ctx, rp):
+    """Re-run one recorded failing input on the implementation; returns True if it still fails."""
+    use_module_findings(ctx)
+    I = Impl()
+    replay_one(ctx, I, rp["replay"])
+    for v in ctx.violations:
+        print("still fails:", v[1][:500])
+    for key, what in ctx.known_hits.items():
+        print("still fails (listed as known):", what[:300])
+    return bool(ctx.violations) or bool(ctx.known_hits)
+
+
+MANIFEST = {
+    "text": "Lean theorems (Mathlib analysis) about an executable model of the calculator's logic cores: deriv_correct (every case of "
+            "rules.deriv on the closed-form fragment has the derivative as its value, under domain conditions), interval_encloses "
+            "(+, -, unary -, *, inverse, /, natural powers with open/closed flags and infinite endpoints), expr_parse_print (printer/parser "
+            "precedence core), linearity_value/split_value (interval integrals). The model is tied to integral/rules.py, expr.py, "
+            "parser.py, interval.py by differential runs on generated inputs (deriv observed with normalize stubbed in the harness process). "
+            "Every other rule (simplification, substitution and inverse, parts, identities, limits, series, definitions) and normalize are "
+            "judged numerically (mpmath, two precisions) on every recorded step of integral/examples and on generated applications: "
+            "supporting evidence, not proof.",
+    "note": "Trusted: Lean kernel + propext/Classical.choice/Quot.sound, Mathlib analysis library, the harness generators and the numerical "
+            "oracle (mpmath quadrature/differentiation/limits), Lark. Partial: theorems cover deriv (closed-form fragment; the Leibniz "
+            "integral case is only compared structurally and numerically), interval arithmetic, the printer/parser core and the "
+            "linearity/splitting identities; normalize's idempotence does not hold on the pinned tree (known finding).",
+    "design_ref": "DESIGN.md 4/C19",
+}
+FINDINGS = [
+    {"status": "fixed", "key": "deriv-value:cot(x ^ 2)", "commit": "fixes/C19-1.patch",
+     "what": "deriv of cot(u) lacked the chain-rule factor: D x. cot(x^2) = -(csc(x^2)^2)"},
+    {"status": "fixed", "key": "deriv-value:acot(x)", "commit": "fixes/C19-2.patch",
+     "what": "deriv of acot(x) evaluated to -1/(1+x)^2 (Python ^ binds weaker than +)"},
+    {"status": "fixed", "key": "interval:imul:[0,1]:(0,1):", "commit": "fixes/C19-3.patch",
+     "what": "interval product flags: [0,1]*(0,1) = (0,1) excludes the attained 0; [-1,1]*[-1,1) = [-1,1) excludes the attained 1"},
+    {"status": "fixed", "key": "interval:iinv:[-1,2]::", "commit": "fixes/C19-4.patch",
+     "what": "Interval.inverse of an interval with 0 inside returned [1/hi, 1/lo] (bounds 1/x on [-1,2] by [-1,1/2])"},
+    {"status": "fixed", "key": "interval:ipow:[-2,1]::4", "commit": "fixes/C19-5.patch",
+     "what": "Interval power with an even exponent other than 2 ignored the sign of the base: [-2,1]^4 = [16,1]"},
+    {"status": "fixed", "key": "normalize-value:sqrt(-2 * x)", "commit": "fixes/C19-6.patch",
+     "what": "normalize dropped the coefficient under an even root of a negative-coefficient monomial: sqrt(-2*x) -> sqrt(-x)"},
+    {"status": "fixed", "key": "normalize-value:atan(tan(x))", "commit": "fixes/C19-7.patch",
+     "what": "normalize rewrote atan(tan(x)) to x without a branch condition"},
+    {"status": "known", "key": "normalize-idempotent:second-pass-changes-form-only",
+     "what": "normalize is not idempotent: a second pass reorders factors, distributes a rational coefficient or simplifies constants "
+             "further (e.g. (x - y) / 5 -> 1/5 * (x - y) -> 1/5 * x - 1/5 * y); the value is unchanged (checked on every instance)"},
+]
